@@ -63,6 +63,13 @@ var props = map[string]*propDef{}
 
 func register(id string, p *propDef) { props[id] = p }
 
+// regExtra adds generators to a property registered elsewhere (extension slots); applied when the property runs.
+var extraStreams = map[string][]func(ctx *Ctx, emit func(Case)){}
+
+func regExtra(id string, gen func(ctx *Ctx, emit func(Case))) {
+	extraStreams[id] = append(extraStreams[id], gen)
+}
+
 func main() {
 	prop := flag.String("prop", "", "property id")
 	tier := flag.String("tier", "quick", "quick|thorough")
@@ -112,6 +119,12 @@ func main() {
 			lr.ModelOK = false
 		}
 	}
+	allStreams := func(ctx *Ctx, emit func(Case)) {
+		pd.streams(ctx, emit)
+		for _, g := range extraStreams[*prop] {
+			g(ctx, emit)
+		}
+	}
 	if pool != nil {
 		gm, err := model.Start(*modelPath)
 		if err == nil {
@@ -123,13 +136,13 @@ func main() {
 				if round > 0 {
 					ctx.R = prng.New(uint64(*seed)*1000003 + hashStr(*prop) + uint64(round)*0x9e3779b97f4a7c15)
 				}
-				pd.streams(ctx, emit)
+				allStreams(ctx, emit)
 			}
 		}, st)
 		pool.Close()
 	} else {
 		// implementation-only: evaluate the property predicates directly
-		pd.streams(ctx, func(c Case) {
+		allStreams(ctx, func(c Case) {
 			st.Evaluations++
 			st.ByStream[c.Stream]++
 			if c.Direct != nil {
